@@ -437,6 +437,46 @@ def wellFormed (h : Heap) (main : Nat) : Bool :=
 /-- no inlined objects -/
 def noOwn (h : Heap) : Bool := h.all fun ob => ob.fields.all fun f => match f.val with | .own _ => false | _ => true
 
+/-! ### inlined (`context.do`) sub-objects: a forest below the named objects -/
+
+/-- some field of some object inlines `p` -/
+def isInlined (h : Heap) (p : Nat) : Bool := h.any fun ob => ob.fields.any fun f => f.val == .own p
+
+/-- some field of some object refers to `p` by name -/
+def isRefTarget (h : Heap) (p : Nat) : Bool := h.any fun ob => ob.fields.any fun f => f.val == .ref p
+
+/-- number of fields (of all objects) that inline `p` -/
+def ownInDegree (h : Heap) (p : Nat) : Nat :=
+  (h.map fun ob => (ob.fields.filter fun f => f.val == .own p).length).sum
+
+/-- Inlined objects form a forest below the named objects — how glue uses `context.do` (styles, arrays,
+slices, ROIs inside states …): every inline edge strictly decreases `idep` (no inline cycle; `idep` is
+bounded by the heap, which is the recursion depth `do` gets), an inline edge is never read in a callback,
+and an inlined object is inlined exactly once, is never referred to by name, is not `main`, and its
+class has a plain loader. -/
+def inlineForestBy (idep : Nat → Nat) (h : Heap) (main : Nat) : Bool :=
+  (List.range h.length).all fun o =>
+    decide (idep o ≤ h.length) &&
+    (match h[o]? with
+      | none => true
+      | some ob => ob.fields.all fun f => match f.val with
+        | .own p => decide (idep p < idep o) && f.phase != .cb
+        | _ => true) &&
+    (!isInlined h o ||
+      (o != main && !isRefTarget h o && ownInDegree h o == 1 &&
+        match h[o]? with
+        | none => true
+        | some ob => ob.fields.all fun f => f.phase == .early))
+
+/-- longest chain of inline edges below `o` (with fuel): the driver's candidate for `idep`;
+`inlineForestBy (ownHeight h (h.length + 1)) h main` then *checks* it -/
+def ownHeight (h : Heap) : Nat → Nat → Nat
+  | 0, _ => 0
+  | f + 1, o =>
+    match h[o]? with
+    | none => 0
+    | some ob => (ob.fields.map fun fl => match fl.val with | .own p => ownHeight h f p + 1 | _ => 0).foldl max 0
+
 /-- every loader is a plain function (no generator, no callback) -/
 def allEarly (h : Heap) : Bool := h.all fun ob => ob.fields.all fun f => f.phase == .early
 
@@ -501,7 +541,8 @@ def cyclesBy (rank : Nat → Nat) (h : Heap) : Bool :=
       | some p, .late => decide (rank p ≤ rank o)
       | _, _ => true
 
-/-- every object hangs below `main` through non-callback references (`dist` decreases towards `main`) -/
+/-- every object hangs below `main` through non-callback edges — references or inlined records
+(`dist` decreases towards `main`) -/
 def coveredBy (dist : Nat → Nat) (h : Heap) (main : Nat) : Bool :=
   (List.range h.length).all fun o =>
     o == main ||
@@ -509,7 +550,7 @@ def coveredBy (dist : Nat → Nat) (h : Heap) (main : Nat) : Bool :=
         match h[q]? with
         | none => false
         | some obq => decide (dist q < dist o) &&
-            obq.fields.any fun f => f.phase != .cb && f.val == .ref o
+            obq.fields.any fun f => f.phase != .cb && f.val.target == some o
 
 /-- One relaxation step of "largest number of early edges on a path below `o`" (callback edges ignored). -/
 def relaxRanks (h : Heap) (r : List Nat) : List Nat :=
@@ -532,7 +573,7 @@ def relaxDist (h : Heap) (main : Nat) (d : List Nat) : List Nat :=
     if o == main then 0 else
       ((List.range h.length).map fun q =>
         match h[q]? with
-        | some obq => if obq.fields.any (fun f => f.phase != .cb && f.val == .ref o) then d.getD q (h.length + 1) + 1
+        | some obq => if obq.fields.any (fun f => f.phase != .cb && f.val.target == some o) then d.getD q (h.length + 1) + 1
                       else h.length + 1
         | none => h.length + 1).foldl min (d.getD o (h.length + 1))
 
